@@ -6,6 +6,7 @@ use crate::core::{replay_report, Ctx, Failure};
 
 pub mod c03;
 pub mod c04;
+pub mod c05;
 pub mod c06;
 pub mod c07;
 pub mod c08;
@@ -25,6 +26,7 @@ pub fn run(ctx: &Ctx) -> i32 {
     match ctx.prop {
         "C03" => c03::run(ctx),
         "C04" => c04::run(ctx),
+        "C05" => c05::run(ctx),
         "C06" => c06::run(ctx),
         "C07" => c07::run(ctx),
         "C08" => c08::run(ctx),
@@ -50,6 +52,7 @@ pub fn replay(prop: &'static str, path: &str) -> i32 {
     let f: Box<dyn Fn(&J) -> Vec<Failure>> = match prop {
         "C03" => Box::new(c03::replay),
         "C04" => Box::new(c04::replay),
+        "C05" => Box::new(c05::replay),
         "C06" => Box::new(c06::replay),
         "C07" => Box::new(c07::replay),
         "C08" => Box::new(c08::replay),
